@@ -119,7 +119,9 @@ impl<'a> FciBuilder<'a> for FirBuilder {
 impl RtcpPacketWriter for FirBuilder {
     fn calculate_size(&self) -> Result<usize, RtcpWriteError> {
         let entries = self.ssrc_seq.len();
-        if entries > u16::MAX as usize / 2 - 2 {
+        // the 16-bit length field holds at most 65536 32-bit words: 3 for the header and the two SSRCs,
+        // 2 for each entry
+        if entries > (u16::MAX as usize + 1 - 3) / 2 {
             return Err(RtcpWriteError::TooManyFir);
         }
         Ok(entries * 2 * 4)
